@@ -34,6 +34,7 @@ TECHNIQUE = 'deviation-bounded exhaustive enumeration of valid encodings plus ex
 RULE += ' Reference graph: EVERY DAG shape with <= 4 cells (thorough: also 5 cells with <= 1 reference each) x EVERY linear extension x EVERY reference slot set to EVERY other index value 0..n+1 and 255, with and without (recomputed) CRC: self / backward (to a leaf or not) / dangling must raise; another forward index gives another bag - if the strict reference decoder accepts it the parser must return what it denotes.'
 ASSUMPTIONS = ['encodings with more than k simultaneous non-default choices are not explored (except the full product on the 2-cell DAG)']
 NOT_ASSERTED = ['rejection of bit flips in input that carries no CRC', 'absent cells > 0', 'stored-hash layout for level masks with gaps (TON writer/reader disagree)']
+RULE += ' Sixth session: every positive case asks the SAME Boc parser object twice (the caller empties the first list in between); reference-index corruption goes through every entry point (Cell.from_boc / one_from_boc, Slice.one_from_boc, Builder.from_boc, Boc.deserialize() / (Cell) / (Slice)) and a retry on the same parser object.'
 
 
 def BOUNDS(tier):
